@@ -326,6 +326,8 @@ static void run_kind(const unsigned kk, const struct vp_in *inp)
             return;
         if (total > kmax) {
             VP_ASSERT(rc < 0, "C13.buffer-encode.refuses-beyond-maximum");
+            /* a refused request designates nothing: the unread octets stay unread */
+            VP_ASSERT(b.offset == in.boff, "C13.buffer-encode.refusal-consumes-nothing");
             VP_WITNESS(total == kmax + 1 && kk == LENP_OCTET, "C13.buffer-encode.octet-max-plus-1.reach");
             return;
         }
@@ -396,6 +398,8 @@ static void run_kind(const unsigned kk, const struct vp_in *inp)
         check_sink(rc, total);
         if (isn && total >= 1 && total <= kmax && total <= (uint64_t)SSIZE_MAX - C13_PREFIX_MAX)
             VP_ASSERT(b.offset == in.boff + in.n, "C13.buffer-to-sink-n.advances-by-n");
+        if (isn && total > kmax)
+            VP_ASSERT(b.offset == in.boff, "C13.buffer-to-sink-n.refusal-consumes-nothing");
         VP_WITNESS(rc > 0 && total == kmax && (!isn || brest > in.n) && in.boff > 0 &&
                    in.bused < in.bsize && kk == LENP_BE_16BIT, "C13.buffer-to-sink.be16-max.reach");
         VP_WITNESS(rc > 0 && total == 1100 && in.boff > 0 && kk == LENP_VARIABLE,
